@@ -3,10 +3,11 @@
    proofs: Proofs/Composite_proofs.v.  `wf` says a component is a Python dict.  The clauses about object identity
    ("leaves the merged-in composites unchanged, then and later") and about the three engine entry points are decided by
    the snapshot / trajectory oracles of the check (see DESIGN.md); schema overrides are not modelled.
+   Schema overrides: Model/Override.v (_override_schemas, merge_overrides, get_schema), Proofs/Override_proofs.v.
    This file contains only statements closed by `exact`, their assumptions and non-vacuity examples.
    Generated once by tools/genprops.py from the proved lemmas (statements restated verbatim). *)
 From Coq Require Import List NArith ZArith Bool Lia.
-From Viv Require Import Base.Assoc Base.Tree Model.Paths Model.Composite Proofs.Paths_proofs Proofs.Composite_proofs.
+From Viv Require Import Base.Assoc Base.Tree Model.Paths Model.Composite Model.Override Proofs.Paths_proofs Proofs.Composite_proofs Proofs.Override_proofs.
 Import ListNotations.
 
 (* a composite generated at a path holds all its processes, steps, flow and topology under that path, unchanged *)
@@ -21,14 +22,14 @@ Print Assumptions C16_embed_components.
 
 (* and nothing anywhere else *)
 Theorem C16_embed1_only :
-  forall (p : list key) (t e : dtree) (q : list key),
+  forall (p : list key) (t e : ptree) (q : list key),
          embed1 p t = Ok e -> diverge p q -> get_in e q = Ok None.
 Proof. exact @embed1_only. Qed.
 Print Assumptions C16_embed1_only.
 
 (* embedding never fails *)
 Theorem C16_embed1_total :
-  forall (p : list key) (t : dtree), exists e : dtree, embed1 p t = Ok e.
+  forall (p : list key) (t : ptree), exists e : ptree, embed1 p t = Ok e.
 Proof. exact @embed1_total. Qed.
 Print Assumptions C16_embed1_total.
 
@@ -78,7 +79,7 @@ Print Assumptions C16_deep_merge_wf.
 
 (* Composite.merge: a leaf of the loose processes/topology/steps/flow/state ends up under the path, whatever was there (later entries win) *)
 Theorem C16_merge1_loose_wins_partial :
-  forall (self other loose r : dtree) (path q : list key) (a : N),
+  forall (self other loose r : ptree) (path q : list key) (a : N),
          wf loose ->
          wf other ->
          is_nd self = true ->
@@ -91,7 +92,7 @@ Print Assumptions C16_merge1_loose_wins_partial.
 
 (* a leaf of the merged-in composite ends up under the path unless the loose arguments redefine it *)
 Theorem C16_merge1_other_kept :
-  forall (self other loose r : dtree) (path q : list key) (a : N),
+  forall (self other loose r : ptree) (path q : list key) (a : N),
          wf loose ->
          wf other ->
          is_nd self = true ->
@@ -105,7 +106,7 @@ Print Assumptions C16_merge1_other_kept.
 
 (* what the receiver held away from the path is untouched *)
 Theorem C16_merge1_self_kept :
-  forall (self other loose r : dtree) (path q : list key) (x : option dtree),
+  forall (self other loose r : ptree) (path q : list key) (x : option ptree),
          wf loose ->
          wf other ->
          is_nd self = true ->
@@ -118,10 +119,105 @@ Print Assumptions C16_merge1_self_kept.
 
 (* merging never fails *)
 Theorem C16_merge1_total :
-  forall (self other loose : dtree) (path : list key),
-         exists r : dtree, merge1 self other loose path = Ok r.
+  forall (self other loose : ptree) (path : list key),
+         exists r : ptree, merge1 self other loose path = Ok r.
 Proof. exact @merge1_total. Qed.
 Print Assumptions C16_merge1_total.
+
+(* schema overrides: every override reaches the process it names by its path in the processes dict *)
+Theorem C16_override_reaches_named :
+  forall (ov : stree) (procs : ptree) (l : list (N * stree)) (p : list key) 
+           (pid : N) (o : stree),
+         wf ov ->
+         override_schemas ov procs = Ok l ->
+         p <> [] -> leaf_at procs p = Some pid -> sub_at ov p = Some o -> In (pid, o) l.
+Proof. exact @override_reaches_named. Qed.
+Print Assumptions C16_override_reaches_named.
+
+(* and every override handed to a process comes from a path naming that process *)
+Theorem C16_override_only_named :
+  forall (ov : stree) (procs : ptree) (l : list (N * stree)) (pid : N) (o : stree),
+         wf ov ->
+         override_schemas ov procs = Ok l ->
+         In (pid, o) l ->
+         exists p : list key, p <> [] /\ leaf_at procs p = Some pid /\ sub_at ov p = Some o.
+Proof. exact @override_only_named. Qed.
+Print Assumptions C16_override_only_named.
+
+(* a process no override names keeps the schema its ports_schema() declares *)
+Theorem C16_unnamed_untouched :
+  forall (ports : N -> stree) (ov : stree) (procs : ptree) (l : list (N * stree)) (pid : N),
+         wf ov ->
+         override_schemas ov procs = Ok l ->
+         ~ names ov procs pid -> is_nd (ports pid) = true -> get_schema ports l pid = ports pid.
+Proof. exact @unnamed_untouched. Qed.
+Print Assumptions C16_unnamed_untouched.
+
+(* a process named once gets exactly that override merged over its declared schema *)
+Theorem C16_named_schema :
+  forall (ports : N -> stree) (ov : stree) (procs : ptree) (l : list (N * stree)) 
+           (pid : N) (p : list key) (o : stree),
+         wf ov ->
+         override_schemas ov procs = Ok l ->
+         p <> [] ->
+         leaf_at procs p = Some pid ->
+         sub_at ov p = Some o ->
+         (forall q : list key, leaf_at procs q = Some pid -> q = p) ->
+         get_schema ports l pid = deep_merge (ports pid) (deep_merge (Nd []) o).
+Proof. exact @named_schema. Qed.
+Print Assumptions C16_named_schema.
+
+(* the attribute values the override gives win (any depth: the port and variable it names) *)
+Theorem C16_override_value_wins :
+  forall (ports : N -> stree) (ov : stree) (procs : ptree) (l : list (N * stree)) 
+           (pid : N) (p : list key) (o : stree) (q : list key) (a : Z),
+         wf ov ->
+         override_schemas ov procs = Ok l ->
+         p <> [] ->
+         leaf_at procs p = Some pid ->
+         sub_at ov p = Some o ->
+         (forall q0 : list key, leaf_at procs q0 = Some pid -> q0 = p) ->
+         is_nd (ports pid) = true ->
+         is_nd o = true ->
+         get_in o q = Ok (Some (Lf a)) -> get_in (get_schema ports l pid) q = Ok (Some (Lf a)).
+Proof. exact @override_value_wins. Qed.
+Print Assumptions C16_override_value_wins.
+
+(* attributes, variables and ports the override does not mention keep the declared value *)
+Theorem C16_unmentioned_attribute_kept :
+  forall (ports : N -> stree) (ov : stree) (procs : ptree) (l : list (N * stree)) 
+           (pid : N) (p : list key) (o : stree) (q : list key) (r : option stree),
+         wf ov ->
+         override_schemas ov procs = Ok l ->
+         p <> [] ->
+         leaf_at procs p = Some pid ->
+         sub_at ov p = Some o ->
+         (forall q0 : list key, leaf_at procs q0 = Some pid -> q0 = p) ->
+         is_nd (ports pid) = true ->
+         is_nd o = true ->
+         get_in o q = Ok None ->
+         get_in (ports pid) q = Ok r -> get_in (get_schema ports l pid) q = Ok r.
+Proof. exact @unmentioned_attribute_kept. Qed.
+Print Assumptions C16_unmentioned_attribute_kept.
+
+(* an override naming a key the processes dict does not have is refused *)
+Theorem C16_unknown_key_refused :
+  forall (oc : list (key * stree)) (procs : ptree) (k : key) (o : stree),
+         In (k, o) oc ->
+         alookup k (children procs) = None ->
+         NoDup (akeys oc) -> exists e : err, override_schemas (Nd oc) procs = Err e.
+Proof. exact @unknown_key_refused. Qed.
+Print Assumptions C16_unknown_key_refused.
+
+(* merging overrides into a schema object the processes share (no copy in get_schema) hands the override to a process nobody named *)
+Theorem C16_shared_schema_refuted :
+  exists l : list (N * stree),
+           override_schemas ov_ex procs_ex = Ok l /\
+           get_schema (fun _ : N => ports_ex) l 20 = ports_ex /\
+           get_schema_shared ports_ex l 20 <> ports_ex /\
+           get_in (get_schema (fun _ : N => ports_ex) l 10) [7%N; 8%N] = Ok (Some (Lf 99%Z)).
+Proof. exact @shared_schema_refuted. Qed.
+Print Assumptions C16_shared_schema_refuted.
 
 
 Definition ex_self : dtree := Nd [(1%N, Nd [(2%N, Lf 7%N)])].
